@@ -6,8 +6,8 @@ import UrcuVerif.Src.IR
 
 Two deterministic local automata whose labels are **accesses of the source text with the values they observe**:
 
-* `cstep` – the thread `t` that runs `call_rcu_before_fork` / `call_rcu_after_fork_parent`
-  (`src/urcu-call-rcu-impl.h`).  Local state `CLState`: a pc that refines L2's `upc t` by the position inside the two
+* `cstep` – the thread `t` that runs `call_rcu_before_fork` / `call_rcu_after_fork_parent` (and the path "call_rcu() has
+  not been used" of `call_rcu_after_fork_child`: `acUnlock`, `acCreate`) (`src/urcu-call-rcu-impl.h`).  Local state `CLState`: a pc that refines L2's `upc t` by the position inside the two
   `cds_list_for_each_entry` loops and inside `wake_call_rcu_thread`, `l` = `call_rcu_data_list` as it was when the
   mutex was taken (helper ids, in list order), `on` = the local `was_online`.
   **List-oracle discipline**: the list is not modelled by the IR (`cds_list_for_each_entry.first/.next` are external
@@ -47,6 +47,7 @@ inductive CLabel
   | ldFutex (h : Nat) (v : Int)     -- load of `crd h->futex` saw `v`
   | stFutex (h : Nat)               -- `uatomic_store(&crd h->futex, 0)`
   | wake (h : Nat)                  -- `futex(&crd h->futex, FUTEX_WAKE, 1)`
+  | listEmpty (b : Bool)            -- `cds_list_empty(&call_rcu_data_list)` answered `b`
   | bad                             -- an event that has no place in the protocol / an ill-typed value
   deriving DecidableEq, Repr
 
@@ -66,6 +67,8 @@ inductive CPc
   | apAnd (h : Nat) (rem : List Nat)    -- about to clear PAUSE of `h` (L2: `afpClr (h :: rem)`)
   | awTop (rem : List Nat)          -- top of the wait loop (L2: `afpWait rem`)
   | awPoll (h : Nat) (rem : List Nat)   -- polling for PAUSED clear (L2: `afpWait (h :: rem)`)
+  | acUnlock                        -- after_fork_child entered, the (inherited) mutex still held (L2: `afcUnlock`)
+  | acCreate                        -- mutex released, about to test `cds_list_empty` (L2: `afcCreate`)
   deriving DecidableEq, Repr
 
 structure CLState where
@@ -143,6 +146,12 @@ def cstep (ls : CLState) (lab : CLabel) : Option CLState :=
   | .awPoll h rem => (match lab with
     | .ldFl h' f => if h' = h then some { ls with pc := if bit f 32 = true then .awPoll h rem else .awTop rem } else none
     | _ => none)
+  | .acUnlock => (match lab with
+    | .unlock => some { ls with pc := .acCreate }
+    | _ => none)
+  | .acCreate => (match lab with
+    | .listEmpty b => if b = true then some { ls with pc := .idle } else none   -- the non-empty path is not modelled here
+    | _ => none)
 
 def crun : CLState → List CLabel → Option CLState
   | ls, [] => some ls
@@ -175,11 +184,13 @@ def CLState.abs (ls : CLState) : UPc :=
   | .apAnd h rem => .afpClr (h :: rem)
   | .awTop rem => .afpWait rem
   | .awPoll h rem => .afpWait (h :: rem)
+  | .acUnlock => .afcUnlock
+  | .acCreate => .afcCreate
 
 /-- the thread holds `call_rcu_mutex` (between the lock of `before_fork` and the unlock of `after_fork_parent`) -/
 def CLState.holds (ls : CLState) : Bool :=
   match ls.pc with
-  | .idle | .bfOff | .bfLock => false
+  | .idle | .bfOff | .bfLock | .acCreate => false
   | _ => true
 
 /-- the L2 label(s) of thread `t` an access stands for.  Stutter steps: the qsbr online/offline bracket, the list
@@ -198,7 +209,10 @@ def cL2 (t : Nat) (ls : CLState) : CLabel → List Label
     | .bwPoll _ _ => if bit f 32 = true then [.bfWait t] else []
     | .awPoll _ _ => if bit f 32 = true then [] else [.afpWait t]
     | _ => [])
-  | .unlock => [.afpUnlock t]
+  | .unlock => (match ls.pc with
+    | .acUnlock => [.afcUnlock t]
+    | _ => [.afpUnlock t])
+  | .listEmpty b => if b = true then [.afcNone t] else []
   | _ => []
 
 /-- the observed values are the stated functions of the global state: the list at the lock, the PAUSED bit of a polled
@@ -208,6 +222,7 @@ def cObs (s : State) (ls : CLState) : CLabel → Prop
   | .ldFl h f => (match ls.pc with
     | .bwPoll _ _ | .awPoll _ _ => bit f 32 = s.paused h
     | _ => True)
+  | .listEmpty b => b = decide (s.list = [])
   | _ => True
 
 /-- the non-local part of L2's guards: the mutex is free when `pthread_mutex_lock` returns; `bfLock`'s API contract (an
